@@ -5,7 +5,7 @@ From Coq Require Import Extraction ExtrOcamlBasic.
 From RV Require Import Base.
 From RV.Model Require Import Utf8 Indexer CodePointSet Insn Fold IR Optimizer Unfold Emit Pike BT Exec Api.
 From RV.Spec Require Import LitSpec Spec.
-From RV.Model Require Import Props.
+From RV.Model Require Import Props Searcher.
 From RV.Ref Require Import RefProps RefCanon.
 
 Definition ix_utf8 : indexer := utf8_indexer fold_code_point.
@@ -31,6 +31,6 @@ Definition drv_es_first (unicode : bool) (inp : list N) (fuel : nat) (r : regex)
   es_first (fun c => fold_code_point c unicode) (fun c => if unicode then unfold_char c else unfold_uppercase_char c)
            inp fuel r ngroups start.
 
-Extraction "model.ml" property_lookup ref_binary ref_gc ref_gc_named ref_sc ref_scx ref_strings ref_probes canon_ref eqclass_ref cps_add cps_add_one cps_add_set cps_inverted cps_inverted_interval_count cps_remove cps_intersect cps_contains cps_wf
+Extraction "model.ml" s_run r_run fs_init rs_init property_lookup ref_binary ref_gc ref_gc_named ref_sc ref_scx ref_strings ref_probes canon_ref eqclass_ref cps_add cps_add_one cps_add_set cps_inverted cps_inverted_interval_count cps_remove cps_intersect cps_contains cps_wf
   add_icase_code_points_for unfold_char unfold_uppercase_char drv_es_first optimize emit drv_lit_occ drv_bt drv_pk fold_code_point
   group named_group named_groups groups replace replace_all drv_ident drv_first_ident drv_all_const escape.
